@@ -60,6 +60,9 @@ pub enum Backend {
     Mem,
     SqlShared,
     SqlPerThread,
+    /// one server instance per *process* on one directory: SQLite's cross-process (fcntl)
+    /// locking, and nothing process-global is shared between the instances
+    SqlPerProcess,
 }
 
 #[derive(Clone, Debug)]
@@ -80,7 +83,7 @@ impl Scenario {
         json!({
             "init": self.init,
             "threads": self.threads.iter().map(|t| t.iter().map(|k| k.name()).collect::<Vec<_>>()).collect::<Vec<_>>(),
-            "backend": match self.backend { Backend::Mem => "in-memory", Backend::SqlShared => "sqlite-one-instance", Backend::SqlPerThread => "sqlite-instance-per-thread" },
+            "backend": match self.backend { Backend::Mem => "in-memory", Backend::SqlShared => "sqlite-one-instance", Backend::SqlPerThread => "sqlite-instance-per-thread", Backend::SqlPerProcess => "sqlite-instance-per-process" },
             "entry": if self.http { "http" } else { "library" },
             "lock_points": self.lock_points,
             "constructor_thread": self.constructor_thread,
@@ -93,6 +96,7 @@ impl Scenario {
             backend: match v["backend"].as_str()? {
                 "in-memory" => Backend::Mem,
                 "sqlite-one-instance" => Backend::SqlShared,
+                "sqlite-instance-per-process" => Backend::SqlPerProcess,
                 _ => Backend::SqlPerThread,
             },
             http: v["entry"].as_str()? == "http",
@@ -203,6 +207,191 @@ pub fn install_hooks() -> Arc<SchedVfs> {
     h
 }
 
+// ---- (de)serialisation for agent processes ---------------------------------------------------
+
+fn hexs(b: &[u8]) -> String {
+    b.iter().map(|x| format!("{x:02x}")).collect()
+}
+fn unhex(s: &str) -> Vec<u8> {
+    (0..s.len() / 2).map(|i| u8::from_str_radix(&s[2 * i..2 * i + 2], 16).unwrap_or(0)).collect()
+}
+
+pub fn req_to_json(r: &Req) -> Value {
+    match r {
+        Req::AddVersion { c, parent, data } => json!({"t": "av", "c": c.to_string(), "id": parent.to_string(), "data": hexs(data)}),
+        Req::GetChild { c, parent } => json!({"t": "gc", "c": c.to_string(), "id": parent.to_string()}),
+        Req::AddSnapshot { c, v, data } => json!({"t": "as", "c": c.to_string(), "id": v.to_string(), "data": hexs(data)}),
+        Req::GetSnapshot { c } => json!({"t": "gs", "c": c.to_string()}),
+    }
+}
+pub fn req_from_json(v: &Value) -> Req {
+    let c = Uuid::parse_str(v["c"].as_str().unwrap_or("")).unwrap_or_default();
+    let id = v["id"].as_str().and_then(|s| Uuid::parse_str(s).ok()).unwrap_or_default();
+    let data = unhex(v["data"].as_str().unwrap_or(""));
+    match v["t"].as_str().unwrap_or("") {
+        "av" => Req::AddVersion { c, parent: id, data },
+        "gc" => Req::GetChild { c, parent: id },
+        "as" => Req::AddSnapshot { c, v: id, data },
+        _ => Req::GetSnapshot { c },
+    }
+}
+pub fn resp_to_json(r: &Resp) -> Value {
+    use crate::model::Urg;
+    match r {
+        Resp::AvOk { id, urgency } => json!({"t": "avok", "id": id.to_string(), "u": match urgency { Urg::None => 0, Urg::Low => 1, Urg::High => 2 }}),
+        Resp::AvConflict { expected } => json!({"t": "conflict", "id": expected.to_string()}),
+        Resp::GcFound { id, parent, data } => json!({"t": "found", "id": id.to_string(), "p": parent.to_string(), "data": hexs(data)}),
+        Resp::GcNotFound => json!({"t": "notfound"}),
+        Resp::GcGone => json!({"t": "gone"}),
+        Resp::NoSuchClient => json!({"t": "nosuch"}),
+        Resp::SnapOk => json!({"t": "snapok"}),
+        Resp::GsFound { id, data } => json!({"t": "snap", "id": id.to_string(), "data": hexs(data)}),
+        Resp::GsNone => json!({"t": "nosnap"}),
+        Resp::Fail(e) => json!({"t": "fail", "e": e}),
+        Resp::Panic(e) => json!({"t": "panic", "e": e}),
+        Resp::Undecodable(e) => json!({"t": "undecodable", "e": e}),
+    }
+}
+pub fn resp_from_json(v: &Value) -> Resp {
+    use crate::model::Urg;
+    let id = |k: &str| v[k].as_str().and_then(|s| Uuid::parse_str(s).ok()).unwrap_or_default();
+    let e = v["e"].as_str().unwrap_or("").to_string();
+    match v["t"].as_str().unwrap_or("") {
+        "avok" => Resp::AvOk { id: id("id"), urgency: match v["u"].as_u64().unwrap_or(0) { 0 => Urg::None, 1 => Urg::Low, _ => Urg::High } },
+        "conflict" => Resp::AvConflict { expected: id("id") },
+        "found" => Resp::GcFound { id: id("id"), parent: id("p"), data: unhex(v["data"].as_str().unwrap_or("")) },
+        "notfound" => Resp::GcNotFound,
+        "gone" => Resp::GcGone,
+        "nosuch" => Resp::NoSuchClient,
+        "snapok" => Resp::SnapOk,
+        "snap" => Resp::GsFound { id: id("id"), data: unhex(v["data"].as_str().unwrap_or("")) },
+        "nosnap" => Resp::GsNone,
+        "fail" => Resp::Fail(e),
+        "panic" => Resp::Panic(e),
+        _ => Resp::Undecodable(e),
+    }
+}
+
+/// One request executed by the real code in this process (library or in-process HTTP).
+fn do_request(server: &Option<Arc<Server>>, app: &Option<HttpApp>, req: &Req) -> Resp {
+    match (server, app) {
+        (Some(s), _) => lib_call(s, req),
+        (_, Some(a)) => {
+            let hr = http_req_for(req, 1);
+            match std::panic::catch_unwind(std::panic::AssertUnwindSafe(|| a.send(&hr))) {
+                Ok(Ok(raw)) => decode_http(req, &raw),
+                Ok(Err(e)) => Resp::Undecodable(e),
+                Err(e) => Resp::Panic(crate::sut::panic_msg(e)),
+            }
+        }
+        _ => unreachable!(),
+    }
+}
+
+/// Agent process (`tcss-verif worker sched-agent`): one server instance of its own; executes the
+/// requests it is told to, reporting every scheduling event to the coordinator and waiting for
+/// its "go" (see `sched::RemoteSched`).
+pub fn agent_main() {
+    use std::io::{BufRead, Write};
+    let vfs = install_hooks();
+    let remote: Arc<dyn sched::SchedApi> = Arc::new(sched::RemoteSched { io: Mutex::new((std::io::stdout(), std::io::stdin())) });
+    let say = |v: Value| {
+        let mut o = std::io::stdout().lock();
+        let _ = writeln!(o, "{}", v);
+        let _ = o.flush();
+    };
+    loop {
+        let mut line = String::new();
+        if std::io::stdin().lock().read_line(&mut line).unwrap_or(0) == 0 {
+            return;
+        }
+        let Ok(cmd) = serde_json::from_str::<Value>(&line) else { continue };
+        if cmd["cmd"] != "run" {
+            continue;
+        }
+        let dir = std::path::PathBuf::from(cmd["dir"].as_str().unwrap_or(""));
+        let http = cmd["http"].as_bool().unwrap_or(false);
+        let construct_only = cmd["construct_only"].as_bool().unwrap_or(false);
+        vfs.lock_points.store(cmd["lock_points"].as_bool().unwrap_or(false), Ordering::SeqCst);
+        let reqs: Vec<Req> = cmd["reqs"].as_array().map(|a| a.iter().map(req_from_json).collect()).unwrap_or_default();
+        // this process's own instance (unscheduled: no tid yet)
+        let probe: Arc<dyn Probe> = Arc::new(SchedProbe);
+        let mut server = None;
+        let mut app = None;
+        if !construct_only {
+            let st: Arc<dyn Storage> = match SqliteStorage::new(&dir) {
+                Ok(s) => Arc::new(s),
+                Err(e) => {
+                    say(json!({"ev": "ready", "error": format!("{e:#}")}));
+                    continue;
+                }
+            };
+            if http {
+                app = Some(HttpApp::new(&WebServer::new(server_config(CFG), None, Inst::new(st, probe.clone()))));
+            } else {
+                server = Some(Arc::new(Server::new(server_config(CFG), Inst::new(st, probe.clone()))));
+            }
+        }
+        say(json!({"ev": "ready"}));
+        // wait for the first "go" (the coordinator's `start`)
+        let mut l2 = String::new();
+        let _ = std::io::stdin().lock().read_line(&mut l2);
+        sched::set_global(Some(remote.clone()));
+        sched::set_tid(Some(0));
+        if construct_only {
+            remote.point("construct");
+            let _ = std::panic::catch_unwind(|| SqliteStorage::new(&dir));
+        }
+        for r in &reqs {
+            remote.point("request");
+            let resp = do_request(&server, &app, r);
+            say(json!({"ev": "ret", "resp": resp_to_json(&resp)}));
+        }
+        sched::set_tid(None);
+        sched::set_global(None);
+        drop(server);
+        drop(app);
+        say(json!({"ev": "done"}));
+    }
+}
+
+/// Coordinator side of one agent process.
+pub struct Agent {
+    child: std::process::Child,
+    stdin: std::process::ChildStdin,
+    stdout: std::io::BufReader<std::process::ChildStdout>,
+}
+
+impl Agent {
+    pub fn spawn() -> Agent {
+        let exe = std::env::current_exe().expect("current_exe");
+        let mut ch = std::process::Command::new(exe).arg("worker").arg("sched-agent").stdin(std::process::Stdio::piped()).stdout(std::process::Stdio::piped()).stderr(std::process::Stdio::inherit()).spawn().expect("spawn agent");
+        let stdin = ch.stdin.take().unwrap();
+        let stdout = std::io::BufReader::new(ch.stdout.take().unwrap());
+        Agent { child: ch, stdin, stdout }
+    }
+    fn send(&mut self, v: &Value) {
+        use std::io::Write;
+        let _ = writeln!(self.stdin, "{}", v);
+        let _ = self.stdin.flush();
+    }
+    fn recv(&mut self) -> Option<Value> {
+        use std::io::BufRead;
+        let mut line = String::new();
+        match self.stdout.read_line(&mut line) {
+            Ok(0) | Err(_) => None,
+            Ok(_) => serde_json::from_str(&line).ok(),
+        }
+    }
+}
+
+impl Drop for Agent {
+    fn drop(&mut self) {
+        let _ = self.child.kill();
+        let _ = self.child.wait();
+    }
+}
+
 // ---- one execution ----------------------------------------------------------------------------
 
 #[derive(Clone, Debug)]
@@ -305,11 +494,19 @@ pub struct Runner {
     sql_files: Option<crate::sut::DirImage>,
     sql_init: Option<(Model, SymTab)>,
     pub vfs: Arc<SchedVfs>,
+    agents: Mutex<Vec<Agent>>,
 }
 
 impl Runner {
     pub fn new(sc: &Scenario, seed: u64, vfs: Arc<SchedVfs>) -> Runner {
-        let mut r = Runner { sc: sc.clone(), seed, scratch: None, sql_files: None, sql_init: None, vfs };
+        let mut r = Runner { sc: sc.clone(), seed, scratch: None, sql_files: None, sql_init: None, vfs, agents: Mutex::new(vec![]) };
+        if sc.backend == Backend::SqlPerProcess {
+            let n = sc.threads.len() + if sc.constructor_thread { 1 } else { 0 };
+            let mut a = r.agents.lock().unwrap();
+            for _ in 0..n {
+                a.push(Agent::spawn());
+            }
+        }
         if sc.backend != Backend::Mem {
             let s = Scratch::new("sched");
             let st: Arc<dyn Storage> = Arc::new(SqliteStorage::new(s.path()).expect("sqlite"));
@@ -341,13 +538,16 @@ impl Runner {
                     storages.push(st.clone());
                 }
             }
-            Backend::SqlShared | Backend::SqlPerThread => {
+            Backend::SqlShared | Backend::SqlPerThread | Backend::SqlPerProcess => {
                 let d = dir.clone().unwrap();
                 crate::sut::write_dir_image(&d, self.sql_files.as_ref().unwrap());
                 let (m, t) = self.sql_init.clone().unwrap();
                 model0 = m;
                 tab0 = t;
-                if sc.backend == Backend::SqlShared {
+                if sc.backend == Backend::SqlPerProcess {
+                    // the coordinator's own handle is only used for the final dump
+                    storages.push(Arc::new(SqliteStorage::new(&d).expect("sqlite")));
+                } else if sc.backend == Backend::SqlShared {
                     let st: Arc<dyn Storage> = Arc::new(SqliteStorage::new(&d).expect("sqlite"));
                     for _ in 0..nreq_threads {
                         storages.push(st.clone());
@@ -363,6 +563,9 @@ impl Runner {
         let mut servers: Vec<Arc<Server>> = vec![];
         let mut webs: Vec<WebServer> = vec![];
         for (i, st) in storages.iter().enumerate() {
+            if sc.backend == Backend::SqlPerProcess {
+                break;
+            }
             let shared = sc.backend != Backend::SqlPerThread && i > 0;
             if sc.http {
                 if shared {
@@ -390,7 +593,83 @@ impl Runner {
         let clock = Arc::new(AtomicUsize::new(0));
         let observed: Arc<Mutex<Vec<Observed>>> = Arc::new(Mutex::new(vec![]));
         let mut handles = vec![];
+        let mut agent_handles: Vec<std::thread::JoinHandle<Agent>> = vec![];
+        if sc.backend == Backend::SqlPerProcess {
+            let mut ags: Vec<Agent> = std::mem::take(&mut *self.agents.lock().unwrap());
+            while ags.len() < nthreads {
+                ags.push(Agent::spawn());
+            }
+            // every agent builds its own instance first, one after the other (unscheduled)
+            let d = dir.clone().unwrap();
+            for (t, a) in ags.iter_mut().enumerate() {
+                let is_ctor = t >= nreq_threads;
+                let rq: Vec<Value> = if is_ctor { vec![] } else { reqs[t].iter().map(|(_, r)| req_to_json(r)).collect() };
+                a.send(&json!({"cmd": "run", "dir": d.display().to_string(), "http": sc.http, "lock_points": sc.lock_points, "construct_only": is_ctor, "reqs": rq}));
+                match a.recv() {
+                    Some(v) if v["ev"] == "ready" && v["error"].is_null() => {}
+                    other => {
+                        // replace a broken agent; the execution will report it as a failure
+                        eprintln!("sched agent not ready: {:?}", other);
+                    }
+                }
+            }
+            for (t, mut agent) in ags.into_iter().enumerate() {
+                let sched = sched.clone();
+                let clock = clock.clone();
+                let observed = observed.clone();
+                let my: Vec<(RKind, Req)> = if t < nreq_threads { reqs[t].clone() } else { vec![] };
+                agent_handles.push(std::thread::spawn(move || {
+                    sched::set_tid(Some(t));
+                    sched.start(t);
+                    agent.send(&json!("go"));
+                    let mut idx = 0usize;
+                    let mut inv = 0usize;
+                    loop {
+                        let Some(ev) = agent.recv() else {
+                            // the agent process died: every outstanding request failed
+                            while idx < my.len() {
+                                let ret = clock.fetch_add(1, Ordering::SeqCst);
+                                observed.lock().unwrap().push(Observed { thread: t, kind: my[idx].0, req: my[idx].1.clone(), resp: Resp::Panic("server process died".into()), inv, ret });
+                                idx += 1;
+                            }
+                            agent = Agent::spawn();
+                            break;
+                        };
+                        match ev["ev"].as_str().unwrap_or("") {
+                            "point" => {
+                                let label = ev["label"].as_str().unwrap_or("").to_string();
+                                sched.point(&label);
+                                if label == "request" {
+                                    inv = clock.fetch_add(1, Ordering::SeqCst);
+                                }
+                                agent.send(&json!("go"));
+                            }
+                            "blocked" => {
+                                sched.blocked(WaitOn::from_json(&ev["on"]), ev["label"].as_str().unwrap_or(""));
+                                agent.send(&json!("go"));
+                            }
+                            "release" => sched.release(WaitOn::from_json(&ev["what"])),
+                            "ret" => {
+                                let ret = clock.fetch_add(1, Ordering::SeqCst);
+                                if idx < my.len() {
+                                    observed.lock().unwrap().push(Observed { thread: t, kind: my[idx].0, req: my[idx].1.clone(), resp: resp_from_json(&ev["resp"]), inv, ret });
+                                    idx += 1;
+                                }
+                            }
+                            "done" => break,
+                            _ => {}
+                        }
+                    }
+                    sched.finish();
+                    sched::set_tid(None);
+                    agent
+                }));
+            }
+        }
         for t in 0..nreq_threads {
+            if sc.backend == Backend::SqlPerProcess {
+                break;
+            }
             let sched = sched.clone();
             let clock = clock.clone();
             let observed = observed.clone();
@@ -423,7 +702,7 @@ impl Runner {
                 sched::set_tid(None);
             }));
         }
-        if sc.constructor_thread {
+        if sc.constructor_thread && sc.backend != Backend::SqlPerProcess {
             let sched = sched.clone();
             let d = dir.clone().unwrap();
             let t = nreq_threads;
@@ -440,6 +719,14 @@ impl Runner {
         let rr = sched.wait_all();
         for h in handles {
             let _ = h.join();
+        }
+        {
+            let mut back = self.agents.lock().unwrap();
+            for h in agent_handles {
+                if let Ok(a) = h.join() {
+                    back.push(a);
+                }
+            }
         }
         sched::set_global(None);
         self.vfs.lock_points.store(false, Ordering::SeqCst);
